@@ -30,6 +30,7 @@ def main():
     patch = out + "/patch.diff"
     res = {"prop": prop, "k": k, "summary": meta.get("summary", "")[:200]}
     stable = set(l.strip().split("::")[0] for l in open("/tmp/props/stable_pass.txt"))
+    stable -= set(l.strip().split("::")[0] for l in open("/tmp/props/always_fail.txt"))
     touched = sorted(set(os.path.dirname(m) for m in re.findall(r"^\+\+\+ b/(\S+)", open(patch).read(), re.M)))
     res["touched"] = touched
     vfile = out + "/verify.json"
